@@ -251,6 +251,17 @@ func (w *World) modelValue(o *Obligation, x string, t types.Type, st *State) (st
 			n = signedOf(n, t)
 			return fmt.Sprintf("%s(%s)", w.goTypeName(c, t), n.String()), n.String(), nil
 		case u.Info()&types.IsString != 0:
+			// prefer models with short strings
+			{
+				pin := "(assert (<= (slen " + x + ") 64))"
+				saved := modelPins[o]
+				modelPins[o] = append(append([]string{}, saved...), pin)
+				if _, err := getValues(o, []string{"(slen " + x + ")"}, 20); err != nil {
+					modelPins[o] = saved
+				} else {
+					modelPins[o] = append(append([]string{}, saved...), pin)
+				}
+			}
 			vs, err := getValues(o, []string{"(slen " + x + ")"}, 20)
 			if err != nil {
 				return "", nil, err
@@ -379,6 +390,12 @@ func (w *World) modelValue(o *Obligation, x string, t types.Type, st *State) (st
 			h, srt := c.fieldHeap(u.Elem(), i)
 			g, j, err := w.modelValue(o, "(select "+c.heapGet(st, h, srt)+" "+x+")", ft, st)
 			if err != nil || g == "" {
+				switch ft.Underlying().(type) {
+				case *types.Basic, *types.Slice, *types.Array:
+					// the harness could not build the value the model pins: the run
+					// would not be a replay of this model
+					return "", nil, fmt.Errorf("field %s: %v", fv.Name(), err)
+				}
 				continue
 			}
 			if _, isPtr := ft.Underlying().(*types.Pointer); isPtr && g != "nil" {
@@ -914,17 +931,28 @@ func (w *World) clauseViolatedBy(o *Obligation, obsJSON string) (bool, string) {
 	for _, x := range extra {
 		sb.WriteString(x + "\n")
 	}
-	sb.WriteString("(assert (not " + t + "))\n(check-sat)\n")
-	f, err := os.CreateTemp("", "govc-obs-*.smt2")
-	if err != nil {
-		return false, err.Error()
+	// the clause is violated by this run only if, with the inputs pinned to
+	// what the harness passed and the outputs to what it observed, the clause
+	// cannot hold whatever the parts of the inputs the harness left at their
+	// zero value are taken to be -- and the pins themselves are consistent
+	common := sb.String()
+	run := func(extraAssert string) string {
+		f, err := os.CreateTemp("", "govc-obs-*.smt2")
+		if err != nil {
+			return "error"
+		}
+		defer os.Remove(f.Name())
+		f.WriteString(common + extraAssert + "(check-sat)\n")
+		f.Close()
+		r, _, _ := runSolver(solvers[0], f.Name(), 20)
+		return r
 	}
-	defer os.Remove(f.Name())
-	f.WriteString(sb.String())
-	f.Close()
-	r, _, _ := runSolver(solvers[0], f.Name(), 20)
-	if r == "sat" {
-		return true, "clause is false for the observed outputs " + obsJSON
+	if r := run(""); r != "sat" {
+		return false, "pinned inputs and observed outputs are not jointly consistent (" + r + ")"
 	}
-	return false, "clause evaluation on observed outputs: " + r
+	if r := run("(assert " + t + ")\n"); r == "unsat" {
+		return true, "clause cannot hold for the observed outputs " + obsJSON
+	} else {
+		return false, "clause evaluation on observed outputs: holds or undetermined (" + r + ")"
+	}
 }
